@@ -125,7 +125,9 @@ func genVTTDoc(r *rng, maxCues int, tricky bool) vttDoc {
 	n := r.intn(maxCues + 1)
 	var t int64
 	for i := 0; i < n; i++ {
-		t += r.rangeI(0, 5000)
+		if t != 0 || !r.chance(1, 6) { // often a first cue at the very start
+			t += r.rangeI(0, 5000)
+		}
 		if r.chance(1, 15) {
 			t += r.rangeI(0, 99) * 3600000
 		}
